@@ -109,14 +109,16 @@ structure CStepOKc (accts : List Acct) (groups : List (Nat × List Acct)) (L : L
   ans_iq : ∀ e ∈ c'.iqReg, (e ∈ (V.cl x).iqReg ∧ ∀ st ∈ cons, stanzaIq st ≠ some e.1) ∨ ∃ st ∈ out, stanzaIq st = some e.1
   ans_pend : ∀ e ∈ c'.pendingIn, ∃ k ∈ c'.iqReg, k.2 = Cont.keysForPending e.1.1 e.1.2
   kept_S : ∀ n, (x, n) ∈ L → ∀ r, r ∈ intendedG groups x n →
-    inTransitV V x n.id r + sumMap (upTok n.id r) out = sumMap (retryDownTok n.id r) cons ∨ n ∈ c'.sentQueue
+    inTransitV V x n.id r + sumMap (upTok n.id r) out = sumMap (retryDownTok n.id r) cons ∨ n ∈ c'.sentQueue ∨
+      100 < V.submitted.length
   kept_R : ∀ a n, (a, n) ∈ L → x ∈ intendedG groups a n →
     pendS n.id c'.pendingIn + sumMap (retryUpTok n.id) out ≤ sumMap (downTok n.id) cons + pendS n.id (V.cl x).pendingIn
   ret3 : ∀ n, (x, n) ∈ L → ∀ g, n.dest = .group g →
     (lookup c'.ownSK g).isSome = true ∨ ∃ e ∈ c'.iqReg, firstGroupCont e.2 n.id
   slots : ∀ i, sendSlots c' i ≤ 1
   rids : ∀ e ∈ c'.receipts, ∃ p ∈ V.submitted, p.2.id = e.1
-  retq : ∀ e ∈ c'.iqReg, ∀ n w c, e.2 = Cont.keysForRetry n w c → isGroupDest n.dest = true → n ∈ c'.sentQueue
+  retq : ∀ e ∈ c'.iqReg, ∀ n w c, e.2 = Cont.keysForRetry n w c → isGroupDest n.dest = true →
+    n ∈ c'.sentQueue ∨ 100 < V.submitted.length
   unop_out : ∀ r, r ≠ x → ∀ n, sumMap (upN groups r n) out ≤ 1 ∧ (1 ≤ sumMap (upN groups r n) out → V.nextCtr ≤ n)
   unop_pend : ∀ n, pendN n c'.pendingIn ≤ sumMap (nOf n) cons + pendN n (V.cl x).pendingIn
   unop_seen : ∀ n, (n ∈ c'.seen.map Prod.snd ∨ n ∈ c'.seenSK.map Prod.snd) →
